@@ -363,6 +363,7 @@ func join(a, b context, node parse.Node, nodeName string) context {
 	a.attr.split = a.attr.split || b.attr.split
 	a.attr.afterAction = a.attr.afterAction || b.attr.afterAction
 	a.attr.inherited = a.attr.inherited && b.attr.inherited
+	a.element.inherited = a.element.inherited && b.element.inherited
 	// Accumulate the result of context-joining elements and attributes in a, since the
 	// contents of a are always returned.
 	a.element.names = joinNames(a.element.name, b.element.name, a.element.names, b.element.names)
@@ -716,7 +717,7 @@ func (e *escaper) escapeTree(c context, node parse.Node, name string, line int) 
 	}
 	// From here on c.attr is marked as the attribute of the call site.
 	caller := c
-	c.attr.inherited = true
+	c.attr.inherited, c.element.inherited = true, true
 	t := e.template(name)
 	if t == nil || t.Tree == nil {
 		// Three cases: The template exists but is empty, its tree was removed because its
@@ -765,14 +766,23 @@ func rebase(out, c0, c context) context {
 		out.attr.afterAction = out.attr.afterAction || c.attr.afterAction
 		out.attr.inherited = c.attr.inherited
 	}
-	if out.linkRel == c0.linkRel {
-		out.linkRel = c.linkRel
-	}
-	if out.scriptType == c0.scriptType {
-		out.scriptType = c.scriptType
-	}
-	if out.element.eq(c0.element) && len(out.element.names) == len(c0.element.names) {
-		out.element = c.element
+	if out.element.inherited {
+		// The template has not left the element it was called in: the element, its link
+		// rel value and script type are those of the call site, unless the template has
+		// read them itself. What it found out about split names stays.
+		if out.linkRel == c0.linkRel {
+			out.linkRel = c.linkRel
+		}
+		if out.scriptType == c0.scriptType {
+			out.scriptType = c.scriptType
+		}
+		split, attrSplit := out.element.split, out.element.attrSplit
+		if out.element.eq(c0.element) && len(out.element.names) == len(c0.element.names) {
+			out.element = c.element
+		}
+		out.element.split = out.element.split || split
+		out.element.attrSplit = out.element.attrSplit || attrSplit
+		out.element.inherited = c.element.inherited
 	}
 	return out
 }
